@@ -317,11 +317,16 @@ def run_history(case) -> CaseResult:
         last_user = None
 
         for op in case['ops'] + ([case['final']] if case.get('final')
-                                 else []):
+                                 else []) + list(case.get('post', [])):
             if not alive():
                 break
 
             kind = op['k']
+
+            if successes() and kind not in ('release', 'probe'):
+                # one more authentication request after USERAUTH_SUCCESS
+                # (to be ignored: RFC 4252 section 5.1)
+                labels.add('request-after-success')
             user = op.get('u', 'alice')
             entry = {'k': kind, 'u': user, 'valid': False, 'cred': None}
             noauth = user == NOAUTH_USER and kind in (
@@ -823,7 +828,10 @@ def strategy(tier: str):
         'probe_req': pick(['exec', 'exec', 'shell', 'subsystem']),
         'ops': st.lists(op, min_size=0, max_size=7 if tier == 'quick'
                         else 12),
-        'final': final})
+        'final': final,
+        'post': st.one_of(st.just([]), st.just([]),
+                          st.lists(st.one_of(pw, pk, simple), min_size=1,
+                                   max_size=2))})
 
 
 # ---- OpenSSH ssh-agent as an independent holder of keys (converse family) --
@@ -1244,7 +1252,8 @@ FAMILIES = [
                              'forced-command-vs-shell',
                              'forced-command-vs-subsystem',
                              'pre-auth-probe',
-                             'probe-before-service-request', 'pk:ok', 'pk:wrong-sid',
+                             'probe-before-service-request',
+                             'request-after-success', 'pk:ok', 'pk:wrong-sid',
                              'pk:wrong-user', 'pk:wrong-service',
                              'pk:wrong-blob', 'pk:bad-sig',
                              'pk:other-signer', 'pk:alg-mismatch',
